@@ -1,0 +1,10 @@
+//go:build !verif
+
+package dastard
+
+// No-op counterparts of the verification hooks in verif_on.go (normal builds).
+
+func vpoint(string)         {}
+func vevent(string, ...any) {}
+func vcrash(string) bool    { return false }
+func vrecover(string)       {}
